@@ -310,7 +310,7 @@ class Engine(EngineBase, AccessMixin, StmtMixin, CallMixin):
             elif isinstance(m, ast.Call) and m.func.id in ('allocates', 'callbacks'):
                 pass
             elif isinstance(m, ast.Call) and m.func.id == 'all_but':
-                keep_only = set('f:' + x for x in self.all_but_names(m))
+                keep_only = set((x if x.startswith('$') else 'f:' + x) for x in self.all_but_names(m))
         r = z3.Int('fr_r')
         k = z3.Int('fr_k')
         changed_any = False
